@@ -125,7 +125,7 @@ def dtlit(s):
 
 DEFAULT_LEAVES = {
     I: [F("n"), F("m"), T.Int(0), T.Int(1), T.Int(3), T.Int(-2)],
-    R: [F("x"), T.Flt("0.5"), T.Flt("-1.5")],
+    R: [F("x"), T.Flt("0.5"), T.Flt("-1.5"), T.Flt("3.0")],     # 3.0 == 3 (an Int leaf): value-keyed caches must not conflate them
     S: [F("s"), F("u"), T.Str("a"), T.Str("%")],
     B: [F("b"), T.Bool(True), T.Bool(False)],
     TT: [F("d"), dtlit("2020-02-29T23:59:59Z")],
